@@ -276,6 +276,8 @@ func vH_C18_iter() {
 	}
 	vAssert("next-after-close-false", !it.Next())
 	vAssert("iter-err-nil", it.Err() == nil)
+	// a read-only statistics call racing with the producer's release
+	c.AllocStats()
 	vWaitIdle()
 	vAssert("producer-goroutine-exited", vLiveGoroutines() == 0)
 	vAssert("version-released", c.root.refs == 1)
